@@ -13,6 +13,28 @@ def run(tier, seed):
                        "state_rates": False, "kind_pool": ["transition", "death"]})
         if any(o["op"] == "flow" and o["kind"].startswith("infection") for o in p["ops"]):
             progs.append(p)
+    # several mixing stratifications in sequence, constant and parameterised / time-varying matrices in
+    # every order (the Kronecker product must follow the order of application)
+    for i in range(max(6, n // 8)):
+        r = g.rng
+        kind_inf = r.choice(["infection_frequency", "infection_density"])
+        ops = [{"op": "pop", "dist": {"S": gen.dy(r, 100, 900, 0), "I": gen.dy(r, 10, 90, 0)}},
+               {"op": "flow", "kind": kind_inf, "name": "inf", "param": gen.frac(r), "src": "S", "dst": "I"},
+               {"op": "flow", "kind": "transition", "name": "rec", "param": gen.frac(r), "src": "I", "dst": "R"}]
+        names = r.sample(["loc", "risk", "vac"], r.choice([2, 3]))
+        for nm in names:
+            strata = gen.STRATA_POOL[nm][: r.choice([2, 2, 3])]
+            k = len(strata)
+            dynamic = r.random() < 0.5
+            mix = [[(g.rate(allow_time=True) if (dynamic and r.random() < 0.5) else gen.frac(r)) for _ in range(k)] for _ in range(k)]
+            if dynamic:
+                mix[0][0] = {"p": r.choice(gen.PARAMS)} if r.random() < 0.5 else {"+": [gen.frac(r), {"*": ["1/16", "t"]}]}
+            iadj = {"I": {s_: (None if r.random() < 0.4 else {"mul": gen.frac(r)}) for s_ in strata}} if r.random() < 0.5 else {}
+            ops.append({"op": "strat", "kind": "plain", "name": nm, "strata": strata, "comps": ["S", "I", "R"],
+                        "fadj": [], "iadj": iadj, "mix": mix})
+        progs.append({"times": ["0", "2", "1"], "comps": ["S", "I", "R"], "inf": ["I"], "ops": ops,
+                      "meta": {"flows": [kind_inf, "transition"], "strats": ["plain"] * len(names), "mix": len(names)},
+                      "nonlinear": True})
     out = []
     for p, st in with_struct(progs):
         if st is None:
